@@ -113,6 +113,14 @@ INFO = {
              "series and value (x/0, x%0 = NaN; comparisons 1 where they hold).",
         note="Exact rational arithmetic incl. math.Mod sign and integer powers; fractional exponents out of scope.",
         ref="6/C12"),
+    "C13": dict(
+        text="TLC shows that precedence climbing as intended yields the conventional tree for every operator chain within the bounds "
+             "(with and without a parenthesised sub-chain) and every such chain is evaluated by Engine.Eval over vector() operands; TLC "
+             "validates the observed value against the outcome set of the conventional grouping. The code's right-grouping of equal "
+             "precedence is a recorded known finding (deviation EqualPrecRight): scenarios it explains print KNOWN-FINDING, any other "
+             "mis-grouping is a violation.",
+        note="Exact rationals; open values for fractional exponents / large magnitudes.",
+        ref="6/C13"),
 }
 
 NOT_YET = "no check registered yet in this revision (machinery under construction; see DESIGN.md section 6 for the planned model)"
